@@ -289,7 +289,9 @@ def part_expr(o: Outcome, thorough: bool):
     r = tlc("Gen_Expr", "Gen_Expr_ties_T.cfg" if thorough else "Gen_Expr_ties_Q.cfg", workers=1, timeout=3000)
     o.add_tlc("Gen_Expr_ties(+MC round reference)", r)
     tcases = r.cases
-    tie_events = run_tie_cases(o, tcases)[::2]     # the minimal renderings go through Trace_Expr too
+    # V: the minimal renderings of every tree with a tie, and of every 4th other one, go through Trace_Expr too
+    tie_events = [ev for i, (c, ev) in enumerate(zip(tcases, run_tie_cases(o, tcases)[::2]))
+                  if i % 4 == 0 or any(k.startswith("round-tie") for k in c["ties"])]
     cases = cases + tcases
     # which paths of the model the cases exercise (TLC's -coverage runs out of memory on the
     # recursive evaluators, so the counts are taken from the generated cases)
